@@ -175,6 +175,15 @@ def gen_jobs(tier, seed, env_text):
     nested += [U_(w(i), e, INT_) for w in wraps[:2] for i in inners[:2] for e in empties]
     add_types("unions whose members contain unions, next to an empty container of another / the same kind, every member first",
               nested, base, rotations=True)
+    # application classes NAMED like typing constructs (List, Union, Set, Dict, Generator, Iterator, TypedDict, Tuple): bare,
+    # inside containers, in small and in large unions
+    look = [Ty("cls", "mtfx.lookalikes." + n) for n in ("List", "Union", "Set", "Dict", "Generator", "Iterator", "TypedDict", "Tuple", "NoneType")]
+    lk = []
+    for c in look:
+        lk += [c, Ty("list", "", [c]), Ty("dict", "", [STR_, c]), U_(c, INT_), U_(c, NONE_), U_(Ty("list", "", [c]), Ty("list", "", [ANY_])),
+               Ty("generator", "", [c, NONE_, NONE_]), Ty("tuple", "", [c, INT_])]
+    lk += [U_(*look[:6], INT_), U_(*look), U_(look[0], look[1], Ty("cls", "mtfx.shapes.A"), Ty("cls", "mtfx.shapes.B"), INT_, STR_, NONE_)]
+    add_types("application classes named like typing constructs, in every shape", lk, base + ["REC+RLU", "RCD+REC"] if False else base, rotations=True)
     if tier == "quick":
         add_types("t1small: atoms, containers, all 2-unions (exhaustive)", t1small, base)
         add_types("t1small x all ordered pairs of rewriters (sampled types)", rng.sample(t1small, 300), pairs)
